@@ -42,6 +42,26 @@ def consts_of(e, memo=None):
     return out
 
 
+def heap_inputs(exprs, limit=80):
+    """reads of the initial heap, select(<base array>, index) with a scalar result: the heap part of a function's input"""
+    out = []; seen = set(); ids = set()
+
+    def is_base(a):
+        return z3.is_const(a) and a.decl().kind() == z3.Z3_OP_UNINTERPRETED and str(a).endswith('!0')
+
+    def walk(x):
+        if x.get_id() in seen: return
+        seen.add(x.get_id())
+        if z3.is_app(x) and x.decl().kind() == z3.Z3_OP_SELECT and not z3.is_array(x):
+            a = x.arg(0)
+            if is_base(a) or (z3.is_app(a) and a.decl().kind() == z3.Z3_OP_SELECT and is_base(a.arg(0))):
+                if x.get_id() not in ids: ids.add(x.get_id()); out.append(x)
+        for c in x.children(): walk(c)
+    for e in exprs:
+        if is_z3(e): walk(e)
+    return out[:limit]
+
+
 def eval_chain(defs, assign):
     """defs: ordered [(sym, expr)]; assign: {sym: numeral}; returns {sym id: value term} for all evaluable symbols"""
     sub = list(assign.items())
@@ -123,6 +143,9 @@ class Prover:
         for ob in pending:
             hyps, goal = smt.expand(ob)
             ob._hyps, ob._goal = hyps, goal
+            base = list(ob.info.get('inputs', []))
+            have = set(t.get_id() for t in base)
+            ob.info['inputs'] = base + [t for t in heap_inputs(hyps + [goal]) if t.get_id() not in have]
         self.direct(pending, FAST, 'direct-fast', inputs_of)
         # stage 3: falsification by (full / partial) pinning of the inputs for the undecided ones
         unk = [ob for ob in pending if ob.status == 'unknown']
